@@ -471,14 +471,7 @@ func (w *c07World) apply(op c07Op) (st c07Step) {
 // ---------------------------------------------------------------------------------------------
 // observation (compared with the model)
 
-func fnv64(b []byte) uint64 {
-	h := uint64(14695981039346656037)
-	for _, c := range b {
-		h ^= uint64(c)
-		h *= 1099511628211
-	}
-	return h
-}
+// fnv64 (FNV-1a 64) is defined in c04.go.
 
 func c07Marshal(h *sam.Header) (text, bin []byte, panicked bool) {
 	o := guard(func() {
